@@ -89,21 +89,22 @@ Init == \E A \in SUBSET RLs :
         /\ pending = Zero /\ got = "none" /\ pc = Idle
         /\ alive = TRUE /\ phase = "start" /\ rounds = 0
         /\ ownBad = {} /\ svcBad = {}
-        /\ hist = <<[a |-> "Init", faults |-> [l \in Lists |-> IF l \in A THEN "absent" ELSE "ok"], up |-> TRUE]>>
+        /\ hist = <<[a |-> "Init", l |-> IF A = {} THEN "" ELSE IF A = RLs /\ Cardinality(A) > 1 THEN "all" ELSE CHOOSE x \in A : TRUE,
+                     f |-> "", up |-> TRUE]>>
 
-StartRound(F) ==
+\* A round starts: every remote version is bumped.  The fault of a list is
+\* chosen when its download starts (lists that are never reached have none).
+StartRound ==
     /\ alive /\ pc.i = 0 /\ rounds < MaxRounds
     /\ rounds' = rounds + 1
     /\ remote' = [l \in Lists |-> remote[l] + 1]
-    /\ fault' = F
+    /\ fault' = NoFaults
     /\ prev' = served /\ dprev' = disk
     /\ pending' = Zero /\ got' = "none"
     /\ pc' = [i |-> 1, s |-> "fetch"]
     /\ phase' = "run"
-    /\ ownBad' = IF F["ridx"] = "invown" THEN ownBad \cup {remote["ridx"] + 1} ELSE ownBad
-    /\ svcBad' = IF "sidx" \in Lists /\ F["sidx"] = "inv" THEN svcBad \cup {remote["sidx"] + 1} ELSE svcBad
-    /\ hist' = H([a |-> "Round", faults |-> F, up |-> TRUE])
-    /\ UNCHANGED <<served, disk, alive>>
+    /\ hist' = H([a |-> "Round", l |-> "", f |-> "", up |-> TRUE])
+    /\ UNCHANGED <<served, disk, alive, ownBad, svcBad>>
 
 Cur == Prog[pc.i]
 \* a victim of the applied index is not downloaded at all
@@ -133,9 +134,13 @@ OnError(l) ==
     ELSE /\ pending' = pending
          /\ pc' = AbortPc
 
-Fetch(l) ==
+Fetch(l, f) ==
     /\ alive /\ pc.i > 0 /\ Cur = l /\ pc.s = "fetch"
-    /\ LET g == Got(fault[l]) IN
+    /\ f \in FaultsOf(l)
+    /\ fault' = [fault EXCEPT ![l] = f]
+    /\ ownBad' = IF l = "ridx" /\ f = "invown" THEN ownBad \cup {remote[l]} ELSE ownBad
+    /\ svcBad' = IF l = "sidx" /\ f = "inv" THEN svcBad \cup {remote[l]} ELSE svcBad
+    /\ LET g == Got(f) IN
        /\ got' = g
        /\ disk' = IF D("inplace") THEN [disk EXCEPT ![l] = -1] ELSE disk   \* truncated and being rewritten
        /\ IF D("swap_first") /\ g \in {"part", "empty"} /\ l # "ridx"
@@ -147,8 +152,8 @@ Fetch(l) ==
                /\ IF g \in {"full", "fullempty", "fullpart"}
                   THEN pc' = [pc EXCEPT !.s = "write"] /\ pending' = pending
                   ELSE OnError(l)
-    /\ hist' = hist
-    /\ UNCHANGED <<remote, fault, prev, dprev, alive, phase, rounds, ownBad, svcBad>>
+    /\ hist' = H([a |-> "Fetch", l |-> l, f |-> f, up |-> TRUE])
+    /\ UNCHANGED <<remote, prev, dprev, alive, phase, rounds>>
 
 Write(l) ==
     /\ alive /\ pc.i > 0 /\ Cur = l /\ pc.s = "write"
@@ -191,7 +196,7 @@ Crash ==
     /\ alive /\ (CrashAnywhere \/ pc.i = 0)
     /\ alive' = FALSE /\ phase' = "down"
     /\ served' = Zero /\ pending' = Zero /\ got' = "none" /\ pc' = Idle
-    /\ hist' = H([a |-> "Crash", faults |-> NoFaults, up |-> TRUE])
+    /\ hist' = H([a |-> "Crash", l |-> "", f |-> "", up |-> TRUE])
     /\ UNCHANGED <<disk, remote, fault, prev, dprev, rounds, ownBad, svcBad>>
 
 \* Initial refresh: an existing cache file is used whatever its age; a missing
@@ -212,13 +217,11 @@ Restart(up) ==
     /\ phase' = "start"
     /\ prev' = served' /\ dprev' = disk'
     /\ fault' = NoFaults
-    /\ hist' = H([a |-> "Restart", faults |-> NoFaults, up |-> up])
+    /\ hist' = H([a |-> "Restart", l |-> "", f |-> "", up |-> up])
     /\ UNCHANGED <<remote, pending, got, pc, rounds, ownBad, svcBad>>
 
-FaultVectors == {F \in [Lists -> Faults] : \A l \in Lists : F[l] \in FaultsOf(l)}
-
-Next == \/ \E F \in FaultVectors : StartRound(F)
-        \/ \E l \in Lists : Fetch(l) \/ Write(l) \/ Compile(l) \/ Swap(l)
+Next == \/ StartRound
+        \/ \E l \in Lists : (\E f \in Faults : Fetch(l, f)) \/ Write(l) \/ Compile(l) \/ Swap(l)
         \/ SwapMap
         \/ Crash
         \/ \E up \in BOOLEAN : Restart(up)
